@@ -1,7 +1,7 @@
 /*
  * White-box harness for the model/C tie of C03 / C12 (lib/mem_tie.py).
  * Includes vnaproperty.c and vnacal_new_parameter.c to reach the static list / map / hash functions;
- * build with exclude=("vnaproperty.c", "vnacal_new_parameter.c") and wrap=True.
+ * build with wrap=True (the archive members vnaproperty.o / vnacal_new_parameter.o are never extracted: this object defines all their globals).
  * Script (one op per line):  <k> <obj> <op> [args]
  *   k = -1: no fault; k >= 0: request number k+1 made by the library during this op fails.
  *   L new | L append | L set i | L insert i | L delete i | L get i | L free
